@@ -65,6 +65,7 @@ type vfXResult struct {
 	Obs        string            `json:"obs,omitempty"` // canonical observation of the last step (soundness check)
 	NCalls     int               `json:"ncalls,omitempty"`   // store calls made by the last operation
 	PostDump   string            `json:"-"`                  // store dump after the last operation (fault oracle)
+	FaultDump  string            `json:"-"`
 	Code       int               `json:"-"`
 	FaultRuns  int64             `json:"fault_runs,omitempty"`
 }
